@@ -1,0 +1,43 @@
+//go:build verif
+
+package batch
+
+// Contracts for govc (/verif). Comment-only file: no executable code, not part of the default build.
+// C33: encoded size of a batch.Batch (the block size estimator calibrates itself on batches of marshalled miniblocks).
+
+/*@
+// number of bytes of the base-128 varint of x (same thresholds as data/block: sov)
+spec fn sovB(x uint64) int = x < 128 ? 1 : (x < 16384 ? 2 : (x < 2097152 ? 3 : (x < 268435456 ? 4 : (x < 34359738368 ? 5 : (x < 4398046511104 ? 6 : (x < 562949953421312 ? 7 : (x < 72057594037927936 ? 8 : (x < 9223372036854775808 ? 9 : 10))))))))
+
+extern func bits.Len64(x uint64) (r int)
+  ensures  range: 0 <= r && r <= 64
+  ensures  zero: x == 0 <==> r == 0
+  ensures  b7:  (x < 128 ==> r <= 7) && (x >= 128 ==> r >= 8)
+  ensures  b14: (x < 16384 ==> r <= 14) && (x >= 16384 ==> r >= 15)
+  ensures  b21: (x < 2097152 ==> r <= 21) && (x >= 2097152 ==> r >= 22)
+  ensures  b28: (x < 268435456 ==> r <= 28) && (x >= 268435456 ==> r >= 29)
+  ensures  b35: (x < 34359738368 ==> r <= 35) && (x >= 34359738368 ==> r >= 36)
+  ensures  b42: (x < 4398046511104 ==> r <= 42) && (x >= 4398046511104 ==> r >= 43)
+  ensures  b49: (x < 562949953421312 ==> r <= 49) && (x >= 562949953421312 ==> r >= 50)
+  ensures  b56: (x < 72057594037927936 ==> r <= 56) && (x >= 72057594037927936 ==> r >= 57)
+  ensures  b63: (x < 9223372036854775808 ==> r <= 63) && (x >= 9223372036854775808 ==> r >= 64)
+  pure
+
+func sovBatch(x uint64) (n int)
+  mode bv
+  ensures closed-form: n == sovB(x)
+  pure
+
+// all entries of Data have the length of the first one
+spec fn uniformData(m *Batch) bool = forall k :: 0 <= k && k < len(m.Data) ==> len(m.Data[k]) == len(m.Data[0])
+spec fn dataOnly(m *Batch) bool = len(m.Reference) == 0 && m.ChunkIndex == 0 && m.MaxChunks == 0
+
+// Batch.Size for a batch that carries only Data entries of one length L: count * (tag + length varint + L)
+func (m *Batch) Size() (n int)
+  ensures  uniform-closed-form: uniformData(m) && dataOnly(m) && len(m.Data) > 0 && len(m.Data) <= 1000000 && len(m.Data[0]) <= 1073741824 ==> n == len(m.Data) * (1 + len(m.Data[0]) + sovB(uint64(len(m.Data[0]))))
+  ensures  empty: len(m.Data) == 0 && dataOnly(m) ==> n == 0
+  assigns  nothing
+loop 1
+  invariant -1 <= rangeindex && rangeindex < len(m.Data)
+  invariant product: uniformData(m) && len(m.Data) <= 1000000 && len(m.Data[0]) <= 1073741824 ==> n == (rangeindex+1) * (1 + len(m.Data[0]) + sovB(uint64(len(m.Data[0]))))
+@*/
